@@ -7,6 +7,13 @@ Lat == { Mk(q, t, 1) : q \in CubeQ, t \in {<<0,0,0>>, <<1,0,0>>, <<0,1,-1>>, <<1
 Rat == { Mk(<<2,1,0,0>>, <<1,0,0>>, 1), Mk(<<2,0,1,0>>, <<0,-1,2>>, 1), Mk(<<2,1,1,0>>, <<1,1,1>>, 2),
          Mk(<<1,1,1,0>>, <<0,2,-1>>, 1), Mk(<<2,1,-1,1>>, <<-2,0,1>>, 1), Mk(<<3,1,0,0>>, <<0,0,1>>, 1),
          Mk(<<1,2,2,0>>, <<0,0,0>>, 1) }
+Plan == { Mk(q, t, d) : q \in { <<1,0,0,0>>, <<1,0,0,1>>, <<0,0,0,1>>, <<1,0,0,-1>>, <<2,0,0,1>>, <<3,0,0,-1>>, <<3,0,0,2>> },
+                        t \in { <<0,0,0>>, <<1,0,0>>, <<0,-2,0>>, <<3,1,0>> }, d \in {1, 2} }
+ASSUME \A m \in Plan : Planar(m)
+ASSUME ThAd2Hom(Plan)
+ASSUME ThAd2Inv(Plan)
+ASSUME ThAd2Vee(Plan)
+ASSUME ThAd2Embed(Plan)
 ASSUME ThSkewCross
 ASSUME ThVexSkew
 ASSUME ThSkewSym
